@@ -62,8 +62,13 @@ def truth(state, v):
         if any(isinstance(p, str) and p for p in v.pieces) or any(isinstance(p, (Chr, Dec, Fmt, Tok)) for p in v.pieces):
             return True
         return z3.Or(*[p != lit("") for p in v.pieces]) if v.pieces else False
+    from .values import MatrixObj, RowView
+    if isinstance(v, RowView):
+        return state.obj(v.matrix).cols > 0
     if isinstance(v, Ref):
         o = state.obj(v)
+        if isinstance(o, MatrixObj):
+            return o.rows > 0
         if isinstance(o, ListObj):
             return len(o.items) > 0 if o.concrete else o.length > 0
         if isinstance(o, DictObj):
@@ -364,6 +369,9 @@ def str_of(state, v):
         raise OutOfSubset("str() of optional built string")
     if isinstance(v, (Tok, Chr, Dec, Fmt)):
         return Rope((v,))
+    if isinstance(v, ClassVal) or (isinstance(v, Ref) and isinstance(state.obj(v), RecObj)):
+        from .values import fresh_name
+        return z3.Const(fresh_name("str.of.object"), StrSort)     # message text: opaque
     raise OutOfSubset(f"str() of {v!r}")
 
 
